@@ -419,7 +419,7 @@ def r12g(ctx, rep, cr):
                         sl_ = A.backward_slice(f, [t_[1]], defs)
                         flds = set(sl_.fields)
                         for cn in sl_.closures:
-                            h_ = cr.fns.get(cn)
+                            h_ = cr.fns.get(cn[8:] if cn.startswith('closure:') else cn)
                             if h_ is not None:
                                 flds |= set(A.field_reads(h_))
                         other |= {x for x in flds if x.startswith(T.DT + 'LockManager.') and x != LOCKS}
@@ -496,6 +496,55 @@ def r12i(ctx, rep, cr):
             c09.acquisition_loop(rep, 'R12i', f, 'LockManager.locks', 'KeyLock.acquired_at_ms')
 
 
+def r12j(ctx, rep, cr):
+    rep.rule('R12j', 'the search leaves its stack as it found it: in deadlock::dfs_detect every set the function both inserts its node into '
+                     'and removes it from (the on-stack set), and every vector it both pushes onto and pops (the path), is restored on '
+                     'every return — no return is reachable after the insert / push without the matching remove / pop. A node left '
+                     'marked as on-stack after an early return (a transaction that waits on nobody) makes a later back-edge test succeed '
+                     'on a node that is no longer on the path: a cycle is reported in an acyclic graph, or a bystander is named as victim')
+    f = rep.require_fn('R12j', cr, 'tensor_chain::deadlock::dfs_detect')
+    if f is None:
+        return
+    defs = A.Defs(f)
+
+    def ident(c_):
+        a_ = c_.arg_local(0)
+        if a_ is None:
+            return None
+        fs_, root_ = A.origin_fields(f, a_, defs)
+        return (root_, tuple(A.place_fields(c_.args[0][1]) + fs_))
+    pairs = []
+    for (acq, rel) in ((r'HashSet::<T, S(, A)?>::insert$', r'HashSet::<T, S(, A)?>::remove$'), (r'Vec::<T, A>::push$', r'Vec::<T, A>::pop$')):
+        for a in A.calls_to(f, ('re', acq)):
+            rels = [r for r in A.calls_to(f, ('re', rel)) if ident(r) == ident(a) and ident(a) is not None]
+            if rels:
+                pairs.append((a, rels))
+    if not rep.floor('R12j', 'insert/remove and push/pop pairs on the search state', len(pairs), 2):
+        return
+    rep.analysed(f)
+    rets = set(A.return_blocks(f))
+    for k, (a, rels) in enumerate(pairs):
+        start = [a.target] if a.target is not None and a.target >= 0 else A.succs(f, a.bb)
+        R = A.reachable(f, start, cut_blocks={r.bb for r in rels})
+        if R & rets:
+            rep.violation('R12j', f, 'stack-not-restored-%s' % a.generic.split('::')[-1], f.loc(a.line),
+                          'after %s at line %d a return is reachable without the matching %s: the search state keeps a node that is no '
+                          'longer being explored' % (a.generic.split('::')[-1], a.line, rels[0].generic.split('::')[-1]))
+        else:
+            rep.holds('R12j', f, 'pair#%d' % k, '%s … %s on every return' % (a.generic.split('::')[-1], rels[0].generic.split('::')[-1]))
+
+
+def r12k(ctx, rep, cr):
+    rep.rule('R12k', 'expiry releases only what has expired (sibling of R09j): in LockManager::cleanup_expired and '
+                     '::cleanup_expired_with_wait_cleanup every key removed from LockManager.locks is selected from that table by '
+                     'is_expired() on the entry itself, and does not come out of the per-transaction list tx_locks')
+    import c09
+    for nm in ('cleanup_expired', 'cleanup_expired_with_wait_cleanup'):
+        f = rep.require_fn('R12k', cr, LM + nm)
+        if f is not None:
+            c09.expiry_janitor(rep, 'R12k', cr, f, 'LockManager.locks', 'LockManager.tx_locks')
+
+
 def run(ctx, rep):
     cr = ctx.crate('tensor_chain')
     r12a(ctx, rep, cr)
@@ -507,5 +556,7 @@ def run(ctx, rep):
     r12g(ctx, rep, cr)
     r12h(ctx, rep, cr)
     r12i(ctx, rep, cr)
+    r12j(ctx, rep, cr)
+    r12k(ctx, rep, cr)
     if ctx.tier == 'thorough':
         witness.run(rep, 'R12a', ['LockTablesArePrivate'])
